@@ -459,7 +459,7 @@ def _sends_code(sends):
         if kind == 'send':
             out.append('P.send(send, %r, %r)' % (name, delay))
         elif kind == 'sendw':
-            out.append('P.sendw(send, %r, %r, w)' % (name, delay))
+            out.append('P.sendw(send, %r, %r, w, box)' % (name, delay))
         elif kind == 'anon':
             out.append('P.anon(send, %r, %r)' % (name, delay))
         else:
